@@ -87,10 +87,12 @@ impl Local {
     }
 
     /// Hand violations and observations to the context (main thread, deterministic order).
+    /// Ctx counts one violation per call; the per-signature count handed over is capped at
+    /// FLUSH_CAP (engines put the exact counts into their coverage JSON).
     pub fn flush(&mut self, ctx: &Ctx) {
         for (sig, (case, detail, n)) in std::mem::take(&mut self.viol) {
             ctx.violation(sig.clone(), case, detail);
-            for _ in 1..n {
+            for _ in 1..n.min(FLUSH_CAP) {
                 ctx.violation(sig.as_str(), Json::Null, "");
             }
         }
@@ -99,6 +101,8 @@ impl Local {
         }
     }
 }
+
+pub const FLUSH_CAP: u64 = 100_000;
 
 pub fn hash_of(parts: &[u64]) -> u64 {
     let mut h: u64 = 0xcbf29ce484222325;
